@@ -142,7 +142,22 @@ class Session:
                     for c in h.children]
 
         try:
-            return (self.tree.count, rec(self.tree))
+            body = rec(self.tree)
+            # the order in which the index hands out the nodes of one id is free, but calls that must have no
+            # effect (refused or read-only ones) may not change it
+            idx = []
+            seen = set()
+
+            def ids(lst):
+                for x in lst:
+                    d = x[2]
+                    if d is not None and d not in seen:
+                        seen.add(d)
+                        idx.append((repr(d), [id(n) for n in self.tree.find_all(data_id=d)], id(self.tree.find_first(data_id=d))))
+                    ids(x[-1])
+
+            ids(body)
+            return (self.tree.count, body, idx)
         except Exception as e:
             return ("UNREADABLE", repr(e))
 
@@ -229,6 +244,8 @@ class Session:
             return v
         if tag == "node":
             return self.bind[v] if isinstance(v, int) else v
+        if tag == "raw":
+            return {"str": "garbage", "float": 3.5, "tuple": (1, 2)}[v]
         raise KeyError(before)
 
     def _before_model(self, before):
@@ -250,6 +267,8 @@ class Session:
             data = op["data"]
             if self.typed and op.get("kind") is not None and not isinstance(op["kind"], str):
                 outcome = M.Refuse(M.INVALID, "kind must be a str")
+            elif op.get("node_id") is not None and any(r.node_id == op["node_id"] for u, r in self.bind.items() if m.has(u)):
+                outcome = M.Unspec("node_id already in use")
             else:
                 outcome = m.add(P_, data, self._before_model(op.get("before")), op.get("data_id"), op.get("kind"), op.get("node_id"))
             via = op.get("via", "add")
@@ -610,7 +629,7 @@ class Session:
             except RecursionError:
                 pass  # broken structure: the monitors below will report it
         if monitors:
-            mf = self.monitors(trust_model=followed)
+            mf = self.monitors(trust_model=followed or (outcome.kind == "ok" and exc is None))
             if mf and outcome.kind == "refuse" and exc is not None and not any(f.prop == "C13" for f in findings):
                 findings.append(Finding("C13:refusal_corrupted_state",
                                         f"after a refused call ({outcome.why}: {type(exc).__name__}) the tree fails {mf[0].tag}: {mf[0].msg}"))
@@ -721,6 +740,7 @@ def _pick_before(rng, m, P_, hostile, allow_unspec, exclude=None):
         allnodes = m.all()
         if allnodes:
             choices.append(("node", rng.choice(allnodes).uid))  # often a node of another parent
+        choices += [("raw", rng.choice(["str", "float", "tuple"]))]  # not a valid position type at all
         if allow_unspec:
             choices += [("idx", len(K) + 2), ("idx", -1)]
     return rng.choice(choices)
@@ -757,6 +777,12 @@ def _gen_kind(s, rng, k, nodes, hostile, allow_unspec):
         op["via"] = via
         if rng.random() < 0.03:
             op["node_id"] = rng.randint(1, 10**6)
+        elif hostile and allow_unspec and nodes and rng.random() < 0.02:
+            # a node_id that is already in use (bound real node): must not end in two nodes sharing one id
+            try:
+                op["node_id"] = s.bind[rng.choice(nodes).uid].node_id
+            except KeyError:
+                pass
         s.ever_data.append(op["data"])
         return op
     if k == "sibling":
@@ -924,7 +950,7 @@ def _gen_kind(s, rng, k, nodes, hostile, allow_unspec):
         n = rng.choice(nodes)
         r = rng.random()
         if r < 0.4:
-            return {"op": "set_meta", "node": n.uid, "key": rng.choice("kl"), "value": rng.choice([1, "v", None, [1]])}
+            return {"op": "set_meta", "node": n.uid, "key": rng.choice("kl"), "value": rng.choice([1, "v", None, [1], 0, False, "", []])}
         if r < 0.6:
             return {"op": "clear_meta", "node": n.uid, "key": rng.choice(["k", "l", None])}
         return {"op": "update_meta", "node": n.uid, "values": {rng.choice("klm"): rng.randint(0, 3)}, "replace": rng.random() < 0.4}
@@ -957,6 +983,18 @@ def run_history(case, res, *, own_prop, extra_props=()):
                     res.count(f"context_finding:{f.tag}")
                 findings = []
                 continue
+            foreign = all(f.prop != own_prop and f.prop not in extra_props for f in findings)
+            if foreign and i + 1 < steps and own_prop in ("C02", "C03"):
+                # somebody else's finding (e.g. a refused call that changed the tree): re-synchronise and go on, so
+                # that a later consequence for *this* property (stale index, accepted duplicate) is still observed
+                for f in findings:
+                    res.count(f"context_finding:{f.tag}")
+                try:
+                    s.resync()
+                    findings = []
+                    continue
+                except Exception:
+                    pass
             break
     for k, v in s.counters.items():
         res.count(k, v)
